@@ -211,8 +211,9 @@ class Impl:
             if isinstance(v, type):
                 out.append(v)
         var = getattr(c.Attributes, '_variants', None)
-        if var is not None:
-            out += list(var.keys())
+        if var is not None and c.__dict__.get('__module__') == 'c15hist':
+            # (the variants of the library's own roots - every Array ever made - are not part of this history)
+            out += [v for v in var.keys() if v.__dict__.get('__module__') == 'c15hist' or v.__orig__ is not None and v.__orig__.__module__ == 'c15hist']
         return out
 
     def walk(self):
